@@ -472,7 +472,7 @@ func checkPKCEVerifier(c *km.Ctx, s *km.Sem, vf *ssa.Function) {
 	}
 	n := 0
 	for _, rc := range s.RetCases(vf) {
-		v := km.Unwrap(rc.Ret.Results[0])
+		v := km.Unwrap(rc.Results[0])
 		if cst, ok := v.(*ssa.Const); ok {
 			n++
 			r.Add("R-C12-3", km.FuncName(vf), "constant result", posOf(c, rc.Ret), "constant results are false", km.ValStr(cst), km.ValStr(cst) == "false")
